@@ -632,6 +632,9 @@ func TestVerifC23Split(t *testing.T) {
 		var lay *vc23Layout
 		var err error
 		shape := rapid.IntRange(0, 5).Draw(t, "shape")
+		if limit < 1<<10 && shape <= 1 && n > limit {
+			shape = 2 // the SDK slicer cannot store its link object under a tiny limit
+		}
 		switch {
 		case shape <= 1 || n <= 1: // SDK slicer: V2 uniform or whole
 			lay, err = vc23Slice(payload, uint64(limit), nAttr)
@@ -784,6 +787,20 @@ func vc23ChildSizes(l *vc23Layout) []int {
 // vc23KnownClass maps a failure to the fingerprint of a suspected-defect class
 // (honoured only when the coordinator lists it in known_findings.json).
 func vc23KnownClass(lay *vc23Layout, linkMode string, q vc23Query, off, ln uint64, oor bool, w *vc23Writer, err error) string {
+	viaLast := linkMode == "last-only" || linkMode == "dangling-link"
+	switch {
+	case lay.kind == "v2" && viaLast && q.Mode != common.PayloadRangeModeNone && !oor && err == nil && w.buf.Len() == 0 && ln > 0:
+		// processV2Last never initialises exec.curOff, so buildChainInReverse stops at once
+		return "C23:v2-range-via-last-part-returns-no-bytes"
+	case lay.kind == "v1" && linkMode == "last-only" && q.Mode != common.PayloadRangeModeNone && !oor && err == nil:
+		// initFromChild leaves lastChildRange = (0,0) when the range ends before the last
+		// child; assemble() then reads the last child with range (0,0) = its WHOLE payload
+		lastPld := lay.children[len(lay.children)-1].Payload()
+		lastStart := uint64(len(lay.payload) - len(lastPld))
+		if off+ln <= lastStart && bytes.Equal(w.buf.Bytes(), append(append([]byte(nil), lay.payload[off:off+ln]...), lastPld...)) {
+			return "C23:v1-range-via-last-part-appends-whole-last-child"
+		}
+	}
 	return ""
 }
 
